@@ -366,7 +366,8 @@ META = {
              "bash 5.2 on the same generated programs on every run; direct interp-vs-bash search on generated programs "
              "and on the pinned interp_test.go corpus."),
     "note": ("Trusted: Coq kernel + vm_compute; hand-written model and spec (tie = seeded differential testing); "
-             "core language only (no redirections, pipelines, command substitution, arrays, traps in the model: "
-             "those are covered by the search legs only)."),
+             "core language = control flow, functions/return, break/continue n, exit, errexit, case, for/while/until, "
+             "subshells, command substitution, pipelines and pipefail; NOT in the model (search legs only): "
+             "redirections, arrays, local, traps, here-documents, [[ ]]."),
     "design_ref": "DESIGN.md 4 C26",
 }
